@@ -4,6 +4,7 @@ import (
 	"bytes"
 	"context"
 	"fmt"
+	"math/rand"
 	"os"
 	"os/exec"
 	"path/filepath"
@@ -13,14 +14,14 @@ import (
 )
 
 type SolverCfg struct {
-	Dir       string
-	FirstMS   int64 // timeout of the first solver
-	RaceMS    int64 // timeout of the fallback race
-	Second    bool  // thorough: re-discharge by a second, different solver
-	CoverMS   int64
-	HeadMS    int64 // head start of the first solver before the others join the race
-	Workers   int
-	Seed      int
+	Dir     string
+	FirstMS int64 // timeout of the first solver
+	RaceMS  int64 // timeout of the fallback race
+	Second  bool  // thorough: re-discharge by a second, different solver
+	CoverMS int64
+	HeadMS  int64 // head start of the first solver before the others join the race
+	Workers int
+	Seed    int
 }
 
 func (e *Engine) query(o *Obligation, getModel bool, cvc bool) string {
@@ -157,6 +158,14 @@ func (e *Engine) discharge(o *Obligation, cfg *SolverCfg) {
 	if !decided(first) {
 		res = e.race(o, base, fz, cfg)
 	}
+	if !decided(res) {
+		// perturbation round: quantifier instantiation is sensitive to the order of the
+		// assertions; the same query with its assumptions permuted (fixed seeds, so runs are
+		// reproducible) is raced on both z3 versions. Any unsat is a proof.
+		if r := e.perturb(o, base, cfg); decided(r) {
+			res = r
+		}
+	}
 	o.Status, o.Solver = res.status, res.name
 	if res.status == "sat" {
 		// obtain a model
@@ -191,6 +200,41 @@ func (e *Engine) discharge(o *Obligation, cfg *SolverCfg) {
 			}
 		}
 	}
+}
+
+func (e *Engine) perturb(o *Obligation, base string, cfg *SolverCfg) solverRun {
+	ctx, cancel := context.WithCancel(context.Background())
+	defer cancel()
+	type variant struct {
+		solver string
+		seed   int64
+	}
+	vs := []variant{{"z3-new", 1}, {"z3", 1}, {"z3-new", 2}, {"z3", 2}}
+	ch := make(chan solverRun, len(vs))
+	for _, v := range vs {
+		v := v
+		f := fmt.Sprintf("%s.p%d.smt2", base, v.seed)
+		if _, err := os.Stat(f); err != nil {
+			p := *o
+			p.Assume = append([]string(nil), o.Assume...)
+			rand.New(rand.NewSource(v.seed)).Shuffle(len(p.Assume), func(i, j int) { p.Assume[i], p.Assume[j] = p.Assume[j], p.Assume[i] })
+			os.WriteFile(f, []byte(e.query(&p, false, false)), 0o644)
+		}
+		go func() {
+			r := runSolver(ctx, v.solver, f, cfg.RaceMS/2)
+			r.name = fmt.Sprintf("%s/perm%d", v.solver, v.seed)
+			ch <- r
+		}()
+	}
+	var res solverRun
+	for range vs {
+		r := <-ch
+		if r.status == "unsat" || r.status == "sat" {
+			return r
+		}
+		res = r
+	}
+	return res
 }
 
 func (e *Engine) dischargeAll(obls []*Obligation, cfg *SolverCfg) {
